@@ -1,11 +1,55 @@
-(* C10 — statements are added as the proofs land (see DESIGN.md section 6). *)
-From Coq Require Import String Ascii List.
-From Bkl Require Import Model.Value Model.Str Model.Eval.
+(* C10 — $merge and $replace behave as if the referenced subtree were written inline.
+   Statements only; proofs in Proofs/RefProofs.v. The model is the live-document semantics of DESIGN.md 4.5:
+   [p1 o cur fuel S loc obj] evaluates obj, [S] are all documents, [loc] is where obj sits in document [cur]
+   ([None] = detached: a copy of a referenced subtree). The full "as if inline" statement for hosts that overlap
+   their targets is not claimed (partial; see DESIGN.md). *)
+From Coq Require Import String Ascii List ZArith.
+From Bkl Require Import Model.Value Model.Merge Model.Str Model.Eval Proofs.PlainProofs Proofs.RefProofs.
 Import ListNotations.
 Local Open Scope string_scope.
 Local Open Scope list_scope.
 
-(* a reference that resolves to nothing is an error: a missing key on the path *)
-Theorem C10_dangling_path : forall m k r, lookup k m = None -> get_path (VMap m) (k :: r) = Err ERefNotFound.
-Proof. intros m k r H. cbn [get_path]. rewrite H. reflexivity. Qed.
-Print Assumptions C10_dangling_path.
+(* $replace yields the referenced value; the host's local content is ignored *)
+Theorem C10_replace_step : forall o cur f S loc m r, lookup "$merge" m = None -> lookup "$replace" m = Some r ->
+  p1 o cur (Datatypes.S f) S loc (VMap m) = bind (get o S cur r) (fun x => p1 o cur f S None (fst x)).
+Proof. exact p1_replace_map. Qed.
+Print Assumptions C10_replace_step.
+
+(* the $merge: / $replace: string forms evaluate the referenced value in place of the string *)
+Theorem C10_string_forms : forall o cur f S loc p,
+  p1 o cur (Datatypes.S f) S loc (VStr ("$merge:" ++ p)) = bind (get o S cur (VStr p)) (fun x => p1 o cur f S None (fst x)) /\
+  (has_prefix "$merge:" ("$replace:" ++ p) = false ->
+   p1 o cur (Datatypes.S f) S loc (VStr ("$replace:" ++ p)) = bind (get o S cur (VStr p)) (fun x => p1 o cur f S None (fst x))).
+Proof. intros. split; [apply p1_merge_str|apply p1_replace_str]. Qed.
+Print Assumptions C10_string_forms.
+
+(* with a directive-free target, a $replace host evaluates exactly as the target written in its place would *)
+Theorem C10_replace_inline : forall o cur f S loc loc' m r t org, lookup "$merge" m = None -> lookup "$replace" m = Some r ->
+  get o S cur r = Ok (t, org) -> plain t -> height t <= f ->
+  p1 o cur (Datatypes.S f) S loc (VMap m) = p1 o cur f S loc' t /\ p1 o cur f S loc' t = Ok (dn t, S).
+Proof. exact p1_replace_inline. Qed.
+Print Assumptions C10_replace_inline.
+
+(* the referenced subtree itself is left unchanged: evaluating a (copy of a) referenced subtree never writes to any document *)
+Theorem C10_target_intact : forall o cur fuel S obj r S', p1 o cur fuel S None obj = Ok (r, S') -> S' = S.
+Proof. exact p1_detached. Qed.
+Print Assumptions C10_target_intact.
+
+(* the dotted-string form and the list-path form denote the same subtree *)
+Theorem C10_forms_agree : forall o S di s, o_yaml o s = Ok (VStr s) ->
+  get o S di (VStr s) = get o S di (VList (map VStr (split_on "."%char s))).
+Proof. exact get_forms_agree. Qed.
+Print Assumptions C10_forms_agree.
+
+(* a reference that resolves to nothing is an error *)
+Theorem C10_dangling : forall m k r v, (lookup k m = None -> get_path (VMap m) (k :: r) = Err ERefNotFound) /\
+  (match v with VMap _ => False | _ => True end -> get_path v (k :: r) = Err ERefNotFound).
+Proof. intros. split; [apply get_path_missing|apply get_path_through_scalar]. Qed.
+Print Assumptions C10_dangling.
+
+(* a cross-document pattern that matches no document, or more than one, is an error *)
+Theorem C10_cross_unique : forall S pat,
+  (filter (fun d => vmatch d pat) S = [] -> cross_doc S pat = Err ENoMatch) /\
+  (forall x y t, filter (fun d => vmatch d pat) S = x :: y :: t -> cross_doc S pat = Err EMultiMatch).
+Proof. intros. split; [apply cross_doc_none|intros x y t; apply cross_doc_multi]. Qed.
+Print Assumptions C10_cross_unique.
